@@ -165,7 +165,7 @@ def correspond(ctx: Ctx, tp, presets):
         cases.append((f"normalize:{lo}", n, gs, [f"normalize:{lo}"],
                       (lambda lo=lo: T.NormalizeRotationTranspiler((lo * qp.UNIT, lo * qp.UNIT + 2 * math.pi)))))
         cases.append(("idElim", n, gs, ["idElim"], T.IdentityEliminationTranspiler))
-        cases.append(("idInsert", n, gs, ["idInsert"], T.IdentityInsertionTranspiler))
+        cases.append(("idInsert", n, gs, [f"idInsert:{n}"], T.IdentityInsertionTranspiler))
     chk = ["CNOT", "H", "CNOT", "H", "CNOT", "S"]
     for _ in range(N * 2):
         n = rng.randint(2, 3)
